@@ -205,6 +205,11 @@ def contexts_for(v, rich=True):
     yield mk("setitem", d={"a": 1, "k": {"x": 0}, "z": 2}, k="k", v=v)
     yield mk("parsed", d={"a": 1}, ml=False, k="k", v=v)
     yield mk("parsed", d={"a": 1}, ml=True, k="k", v=v)
+    # replacing an existing parsed literal of every kind (the new value must not inherit anything from it)
+    yield mk("parsed", d={"a": 1, "k": "old"}, ml=True, k="k", v=v)
+    yield mk("parsed", d={"k": "old", "z": "s"}, ml=False, k="k", v=v)
+    yield mk("parsed", d={"k": True}, ml=False, k="k", v=v)
+    yield mk("parsed", d={"k": [1, 2], "a": None}, ml=True, k="k", v=v)
     if rich:
         yield mk("fromdict", d={"p": {"k": v}})
         yield mk("fromdict", d={"p": {"a": 1, "k": v}, "q": 2})
@@ -238,10 +243,22 @@ def case_request(c):
 
 def base_text(d: dict, ml: bool) -> str:
     """Canonical spelling of a set of integer bindings: on one line, or one binding per line."""
-    assert all(isinstance(v, int) and not isinstance(v, bool) and v >= 0 for v in d.values())
+    def lit(v):
+        if v is True or v is False:
+            return "true" if v else "false"
+        if v is None:
+            return "null"
+        if isinstance(v, int) and v >= 0:
+            return str(v)
+        if isinstance(v, str) and v.isalnum():
+            return '"' + v + '"'
+        if isinstance(v, list) and v and all(isinstance(x, int) and not isinstance(x, bool) and x >= 0 for x in v):
+            return "[ " + " ".join(str(x) for x in v) + " ]"
+        raise AssertionError(v)
+
     if ml:
-        return "{\n" + "".join(f"  {k} = {v};\n" for k, v in d.items()) + "}"
-    return "{ " + "".join(f"{k} = {v}; " for k, v in d.items()) + "}"
+        return "{\n" + "".join(f"  {k} = {lit(v)};\n" for k, v in d.items()) + "}"
+    return "{ " + "".join(f"{k} = {lit(v)}; " for k, v in d.items()) + "}"
 
 
 
